@@ -495,6 +495,18 @@ def main(tier):
                 else:
                     if rv != ev:
                         fails.append(("unpack.value", "typedef value differs", rv, a.get("value") if isinstance(a, dict) else a, ev))
+                # what the instance reports after unpack: offsets()/offset_of() must be the C ABI offsets
+                if not fails and env[top]["kind"] != "typedef" and O.is_fixed(top, env):
+                    el = oracle_layout(top, env, ps)
+                    if el is not None and real.get("offsets") != el["offsets"]:
+                        fails.append(("offsets-after-unpack", "instance.offsets() = %r, C ABI %r" % (real.get("offsets"), el["offsets"]),
+                                      real.get("offsets"), a.get("offsets") if isinstance(a, dict) else a, el["offsets"]))
+                    Lr = O.layout(top, env, ps)
+                    want = [[f["name"], 0 if env[top]["kind"] == "union" else o]
+                            for f, o in zip(env[top]["fields"], Lr["offs"]) if f["k"] not in ("bits", "bitsEx")]
+                    if not fails and real.get("offset_of") != want:
+                        fails.append(("offset_of", "instance.offset_of() = %r, C ABI %r" % (real.get("offset_of"), want),
+                                      real.get("offset_of"), a.get("offset_of") if isinstance(a, dict) else a, want))
                 if not fails and not noncanon:
                     if real["packed"] is None:
                         fails.append(("pack.raise", "pack() of the unpacked instance raises %s" % real.get("pack_exc"),
@@ -669,9 +681,9 @@ def main(tier):
 
     # ---- generated definitions ------------------------------------------------------------------
     g = G.Gen(r, tag.strip("_") + "g")
-    nfix = 260 if quick else 14000
-    nvar = 200 if quick else 12000
-    nmal = 60 if quick else 4000
+    nfix = 260 if quick else 40000
+    nvar = 200 if quick else 30000
+    nmal = 60 if quick else 10000
     gcc_pool = []
     for n in range(nfix + nvar + nmal):
         varlen = nfix <= n < nfix + nvar
@@ -784,7 +796,7 @@ def main(tier):
 
     # ---- B: LEB128 ---------------------------------------------------------------------------------
     from amoco.system.structs.utils import read_leb128, write_uleb128, write_sleb128
-    nleb = 1500 if quick else 100000
+    nleb = 1500 if quick else 250000
     reqs, expect = [], []
     for k in range(nleb):
         sg = r.random() < 0.5
@@ -833,7 +845,7 @@ def main(tier):
     ck.sample({"leb": [expect[0], expect[1]]})
 
     # ---- G: gcc validation of the reference -----------------------------------------------------------
-    ngcc = 60 if quick else 7000
+    ngcc = 60 if quick else 15000
     pool = gcc_pool[:ngcc]
     with tempfile.TemporaryDirectory(prefix="c16gcc") as wd:
         for ps in (8, 4):
